@@ -1,6 +1,10 @@
 (* Proofs/Registration_proofs.v — lemmas about Model/Registration.v (property C19). *)
 From Coq Require Import String.
-From Verif Require Import Lib.Base Lib.PyStr Lib.Urlenc Model.RegUri Model.Registration.
+From Verif Require Import Lib.Base.
+From Verif Require Import Lib.PyStr.
+From Verif Require Import Lib.Urlenc.
+From Verif Require Import Model.RegUri.
+From Verif Require Import Model.Registration.
 Open Scope N_scope.
 
 (* ================================================================== association lists *)
@@ -962,7 +966,8 @@ Proof.
   intros R RD ND t a Hin. pose proof (issued_tokens_kept _ _ _ _ _ R RD ND t a Hin) as K.
   split; [assumption|]. intros q now s2 cid resp H.
   apply read_answer_inv in H as (Hq & (h & Hh & _ & A) & _).
-  inversion Hh; subst h. rewrite skip_bearer in A. rewrite K in A. inversion A; subst. auto.
+  assert (E : skipn 7 h = t) by (inversion Hh; reflexivity).
+  rewrite E, K in A. inversion A; subst. auto.
 Qed.
 
 (* every pairing (token of A, client B <> A) is refused *)
